@@ -98,13 +98,14 @@ struct ReqResult {
     stores: Vec<Store>,
 }
 
-fn gen_instance_uid(w: &mut Tape, env: &EnvRef, k: usize, base: &Path) -> (Vec<u8>, &'static str) {
+fn gen_instance_uid(w: &mut Tape, env: &EnvRef, k: usize, _base: &Path) -> (Vec<u8>, &'static str) {
     let n = w.weighted(&[6, 2, 2, 2, 1, 1, 1, 1, 1]);
     let (s, kind): (String, &'static str) = match n {
         0 => (format!("1.2.826.0.1.3680043.9.{}", 100 + k), "plain"),
         1 => (format!("../esc{}", k), "uid-parent-ref"),
         2 => (format!("sub/in{}", k), "uid-subdir"),
-        3 => (format!("{}/abs{}", base.join("other").display(), k), "uid-absolute"),
+        // worker-independent text that resolves inside this worker's sandbox (its working directory)
+        3 => (format!("/proc/self/cwd/other/abs{}", k), "uid-absolute"),
         4 => (format!("{}/x{}", ESCAPE, k), "uid-unreachable-absolute"),
         5 => (["..", ".", "", "...", "a..b"][w.below(5) as usize].to_string() + &"x".repeat(0), "uid-dots"),
         6 => (format!("../other/in{}", k), "uid-parent-ref"),
@@ -157,6 +158,7 @@ fn run(cfgi: usize, w: &mut Tape, env: &EnvRef) -> RunResult {
     std::fs::create_dir_all(out_dir.join("sub")).map_err(harness)?;
     std::fs::create_dir_all(base.join("store").join("other")).map_err(harness)?;
     std::fs::create_dir_all(base.join("other")).map_err(harness)?;
+    std::env::set_current_dir(&base).map_err(harness)?;
 
     // ---- the tool's arguments
     let max_pdu: u32 = [16378u32, 1018, 4096, 65536, 131072][w.below(5) as usize];
